@@ -17,7 +17,7 @@ from harness.props import c01
 
 PROPERTY = "C15"
 ENGINE = "c01"
-REQUIRED_THEOREMS = ["backtick_verbatim", "whitespace_noop", "whitespace_flushes", "spans_ordered"]
+REQUIRED_THEOREMS = ["backtick_verbatim", "whitespace_noop", "whitespace_flushes", "spans_ordered", "ws_insensitive", "positions_irrelevant"]
 TRUSTED = list(c01.TRUSTED) + [
     "that two formattings of one Python fragment have the same ast.unparse normal form is CPython's (exercised, not proved)"
 ]
@@ -239,7 +239,7 @@ def classify(c, o, why):
 
 
 LEVEL_TEXT = (
-    'Proof (partial): Lean theorems about the executable model of tokenize() show for ALL bodies (any characters of any class except backtick/backslash) that a backtick-quoted name is one name token with the body verbatim and the documented span, that unquoted whitespace is a no-op after an operator/between tokens and otherwise only ends the pending token, and that for EVERY string that tokenises all spans lie inside the string, are ordered and do not overlap (loop invariant). Whole-string whitespace insensitivity, that a span slices back to its text, brace/call verbatim quoting and reformatting-invariance of Python fragments are NOT theorems (FULL (unproved) in Props/C15.lean): they are covered by the correspondence of the model against the real tokenizer (texts, kinds and spans) and by metamorphic oracles on the real code.'
+    'Proof (partial): Lean theorems about the executable model of tokenize() show for ALL bodies (any characters of any class except backtick/backslash) that a backtick-quoted name is one name token with the body verbatim and the documented span, that unquoted whitespace is a no-op after an operator/between tokens and otherwise only ends the pending token, and that for EVERY string that tokenises all spans lie inside the string, are ordered and do not overlap (loop invariant). Whole-string whitespace insensitivity IS a theorem (ws_insensitive: one unquoted whitespace character inserted at any point where no quote is open and the pending token is empty or an operator changes no token text/kind and no accept/reject outcome; positions never influence texts/kinds). That a span slices back to its text, brace/call verbatim quoting and reformatting-invariance of Python fragments are NOT theorems (FULL (unproved) in Props/C15.lean): they are covered by the correspondence of the model against the real tokenizer (texts, kinds and spans) and by metamorphic oracles on the real code.'
 )
 LEVEL_NOTE = (
     "Trusted: Lean kernel + the three standard axioms; the hand model of tokenize()/Token validated token-by-token incl. spans on every run; Python's re classes enter as data; ast.unparse is CPython's."
